@@ -133,6 +133,9 @@ def pr(e):
             # `1 . 2` is lexically a float; an int on the left of a dot is grouped
             if l[0] == "int" and not ls.startswith("("):
                 ls = "(" + ls + ")"
+            # `a.0.1` is lexically `a . 0.1`: an index after an index needs the first one grouped
+            if r[0] == "int" and l[0] == "bin" and l[1] == "." and l[3][0] == "int":
+                ls = "(" + ls + ")"
             if r[0] in ("sym", "str") or (r[0] == "int" and r[1] >= 0):
                 return "%s.%s" % (ls, rs)
             if r[0] in ("call", "copy"):
@@ -366,6 +369,7 @@ class Interp:
         self.trace = trace if trace is not None else []
         self.steps = 0
         self.hetero_concat = False      # set when two lists with different element types were concatenated
+        self.null_selections = 0        # failed selections that non-strict mode turned into NULL
 
     # env: dict name -> value ; self_stack: list
     def run(self, stmts):
@@ -622,6 +626,7 @@ class Interp:
                 if n == idx[1]:
                     return v
         if not self.strict:
+            self.null_selections += 1
             return NULL
         raise Fail("index", "no such field or index")
 
